@@ -138,6 +138,23 @@ func init() {
 			in.schedPoint()
 			return nil
 		},
+		// vpSettle: background work drains — every other thread runs until it
+		// is blocked or done before the caller continues
+		"vpSettle": func(in *Interp, _ *frame, pos token.Pos, args []Value) Value {
+			cur := in.cur
+			in.block(func() bool {
+				for _, t := range in.threads {
+					if t == cur || t.done {
+						continue
+					}
+					if t.waiting == nil || t.waiting() {
+						return false
+					}
+				}
+				return true
+			}, "vpSettle", pos)
+			return nil
+		},
 		"vpSameBacking": func(in *Interp, _ *frame, _ token.Pos, args []Value) Value {
 			a, b := args[0].(Slice), args[1].(Slice)
 			return in.ts.Bool(overlaps(a, b))
